@@ -628,7 +628,14 @@ impl<'a> Ctx<'a> {
 		let mut emitted: Vec<usize> = self.beh.emit.iter().map(|e| e.tok).collect();
 		emitted.dedup();
 		let acceptance_demanded = self.beh.junk == 0 && known == emitted;
-		let g = match real::read_slp_noopts(&self.built.bytes) {
+		self.fixed_point_clauses(&self.built.bytes, Some(&canon.bytes), acceptance_demanded, &cls, out);
+	}
+
+	/// The three clauses of C17 on one accepted file: declared raw length = measured length, re-read equal, second
+	/// write identical; `canon`: the bytes the writer is expected to emit, when the model predicts them.
+	pub fn fixed_point_clauses(&self, bytes: &[u8], canon: Option<&[u8]>, acceptance_demanded: bool, cls: &str, out: &mut Vec<Viol>) {
+		let cls = cls.to_string();
+		let g = match real::read_slp_noopts(bytes) {
 			Outcome::Ok(g) => g,
 			Outcome::Err(_) if !acceptance_demanded => return,
 			o => {
@@ -653,8 +660,10 @@ impl<'a> Ctx<'a> {
 			Err(e) => out.push(viol("declared_length", &cls, "mismatch", format!("written file is not walkable: {}", e))),
 		}
 		// the model's prediction of the written file
-		if let Some(i) = first_diff(&w1, &canon.bytes) {
-			out.push(viol("canonical_emission", &cls, "mismatch", format!("written file differs from the model's emission at byte {} (len {} vs {})", i, w1.len(), canon.bytes.len())));
+		if let Some(canon) = canon {
+			if let Some(i) = first_diff(&w1, canon) {
+				out.push(viol("canonical_emission", &cls, "mismatch", format!("written file differs from the model's emission at byte {} (len {} vs {})", i, w1.len(), canon.len())));
+			}
 		}
 		// (2) re-read: same start, end, metadata, gecko codes, frame data
 		let g2 = match real::read_slp_noopts(&w1) {
@@ -690,15 +699,9 @@ impl<'a> Ctx<'a> {
 		}
 	}
 
-	/// C08 (first half): unknown events declared in the payload table, inserted at every event
-	/// boundary after Game Start, leave the parsed game identical.
-	pub fn c08_insertions(&self, o: &crate::gen::GenOpts, out: &mut Vec<Viol>) {
-		let cls = shape_class(self.beh);
-		let base = match real::read_slp_noopts(&self.built.bytes) {
-			Outcome::Ok(g) => g,
-			_ => return, // C01's business
-		};
-		let base_cols = cols::from_immutable(&base.frames);
+	/// The files of C08's first half: the behaviour's file with unknown (declared) events inserted at every event
+	/// boundary after Game Start, one at a time, several at once, and after Game End.
+	pub fn insertion_variants(&self, o: &crate::gen::GenOpts) -> Vec<(String, Built)> {
 		let evs = crate::gen::file_events(self.beh);
 		let first_ge = evs.iter().position(|e| e.k == "ge");
 		// boundaries: before every event up to and including the first Game End; after a single Game End
@@ -707,8 +710,6 @@ impl<'a> Ctx<'a> {
 			// (after a single Game End, and after its duplicate)
 			positions.push(evs.len());
 		}
-		let l = self.db.for_version(self.built.ver[0], self.built.ver[1]);
-		let table: Vec<String> = self.beh.table.iter().filter(|k| l.gecko || (*k != "gecko" && *k != "split")).cloned().collect();
 		let unk = |code: u8, tok: usize| crate::gen::AEvent { k: "unk".into(), id: 0, p: 0, f: 0, x: code as i64, tok };
 		let mut variants: Vec<(String, Vec<crate::gen::AEvent>)> = vec![];
 		for (j, pos) in positions.iter().enumerate() {
@@ -737,14 +738,44 @@ impl<'a> Ctx<'a> {
 				variants.push((format!("after_end_x{}", k), v));
 			}
 		}
+		let l = self.db.for_version(self.built.ver[0], self.built.ver[1]);
+		let table: Vec<String> = self.beh.table.iter().filter(|k| l.gecko || (*k != "gecko" && *k != "split")).cloned().collect();
+		variants
+			.into_iter()
+			.map(|(name, v)| {
+				let mut oo = o.clone();
+				// sizes incl. the largest a payload table can declare
+				let pick = (crate::util::fnv(&self.built.bytes) % 4) as usize;
+				oo.unk_sizes.insert(0x40, [1u16, 7, 600, 65535][pick]);
+				oo.unk_sizes.insert(0x7F, [600u16, 65534, 1, 7][pick]);
+				let last_is_end = v.last().map_or(false, |e| e.k == "ge");
+				let with = crate::gen::build_file(self.db, &self.beh.occ, &v, &table, self.beh.fin.gactual, self.beh.meta == "some", 0, &oo);
+				(format!("{}{}", name, if last_is_end { "" } else { ",end_not_last" }), with)
+			})
+			.collect()
+	}
+
+	/// C17 on the same files: accepted, written, measured, re-read, written again; the emission is the file without
+	/// the unknown events (the behaviours of the recorder model are canonical).
+	pub fn c17_insertions(&self, o: &crate::gen::GenOpts, out: &mut Vec<Viol>) {
+		for (name, with) in self.insertion_variants(o) {
+			let cls = format!("{},insert:{}", shape_class(self.beh), name.split('@').next().unwrap_or(""));
+			self.fixed_point_clauses(&with.bytes, if self.beh.junk == 0 { Some(&self.built.bytes) } else { None }, true, &cls, out);
+		}
+	}
+
+	/// C08 (first half): unknown events declared in the payload table, inserted at every event
+	/// boundary after Game Start, leave the parsed game identical.
+	pub fn c08_insertions(&self, o: &crate::gen::GenOpts, out: &mut Vec<Viol>) {
+		let cls = shape_class(self.beh);
+		let base = match real::read_slp_noopts(&self.built.bytes) {
+			Outcome::Ok(g) => g,
+			_ => return, // C01's business
+		};
+		let base_cols = cols::from_immutable(&base.frames);
 		let base_skip = real::read_slp(&self.built.bytes, true, false);
-		for (name, v) in variants {
-			let mut oo = o.clone();
-			// sizes incl. the largest a payload table can declare
-			let pick = (crate::util::fnv(&self.built.bytes) % 4) as usize;
-			oo.unk_sizes.insert(0x40, [1u16, 7, 600, 65535][pick]);
-			oo.unk_sizes.insert(0x7F, [600u16, 65534, 1, 7][pick]);
-			let with = crate::gen::build_file(self.db, &self.beh.occ, &v, &table, self.beh.fin.gactual, self.beh.meta == "some", 0, &oo);
+		for (name, with) in self.insertion_variants(o) {
+			let end_is_last = !name.ends_with(",end_not_last");
 			let g = match real::read_slp_noopts(&with.bytes) {
 				Outcome::Ok(g) => g,
 				o2 => {
@@ -754,7 +785,7 @@ impl<'a> Ctx<'a> {
 			};
 			// the skip-frames read, whose contract (C10) is limited to files with Game End as the last event: whatever it
 			// returns for the file without the unknown events
-			if self.beh.file_end != "none" && v.last().map_or(false, |e| e.k == "ge") {
+			if self.beh.file_end != "none" && end_is_last {
 				match (&base_skip, real::read_slp(&with.bytes, true, false)) {
 					(Outcome::Ok(b), Outcome::Ok(w)) => {
 						if b.start.bytes != w.start.bytes || b.end != w.end || b.metadata != w.metadata || b.gecko_codes != w.gecko_codes || b.frames.id.len() != w.frames.id.len() {
